@@ -217,9 +217,11 @@ class CombineLevel(FragmentTask):
     last = staticmethod(_src("for file_idxs, offsets in zip(pck1.map_bfile_offsets(lv), new_offsets)"))
     inline = (PC + "map_bfile_offsets", PC + "by_matched_offsets_output", PC + "by_binfile_output")
 
-    def __init__(self, mode):
-        self.mode = mode
-        self.name = f"combine.level-body[{mode}]"
+    def __init__(self, mode, short=False):
+        """short: the worker of a file with several boxes returns one offset FEWER than it was given boxes (what the workers do
+        when an input binary file ends early): the level body must not return normally"""
+        self.mode, self.short = mode, short
+        self.name = f"combine.level-body[{mode}" + (", a worker comes back with fewer offsets than boxes]" if short else "]")
 
     def setup(self, ex):
         ctx = ex.ctx
@@ -242,6 +244,8 @@ class CombineLevel(FragmentTask):
             calls.append({"r1": call.get("bfile_r1"), "r2": r2, "w": call.get("bfile_w"), "o1": list(a1), "o2": list(a2)})
             if not (len(a1) == len(a2) == len(r2)):
                 raise SymRaise("ValueError", "per-box lists of different lengths")
+            if self.short and len(a1) >= 2:
+                return [NEW(k, t) for t in range(len(a1) - 1)]
             return [NEW(k, t) for t in range(len(a1))]
         self.contracts = {CB + "parallel_combine_by_boxes_offsets": worker, CB + "parallel_combine_by_binfile_offsets": worker}
         pool = Record("Pool")
@@ -252,6 +256,9 @@ class CombineLevel(FragmentTask):
 
     def post(self, ex, inp, out):
         ctx = ex.ctx
+        if self.short:
+            ctx.oblige("fault.a-short-worker-result-does-not-pass-for-a-level", out.kind == "exc", "P")
+            return
         ctx.oblige("raises-nothing", out.kind == "ret", "P", note=str(out.exc) if out.kind != "ret" else "")
         if out.kind != "ret":
             return
@@ -370,7 +377,7 @@ class SameMesh(Task):
 
 def parent_tasks(tier):
     from props.scatter_u import combine_scatter
-    return [combine_scatter(), ModeDecision(True), ModeDecision(False), OffsetMap(), MatchedOffsets(), BinfileOutput(), CombineScatter(), CombineLevel("bybox"), CombineLevel("byoffset"),
+    return [combine_scatter(), ModeDecision(True), ModeDecision(False), OffsetMap(), MatchedOffsets(), BinfileOutput(), CombineScatter(), CombineLevel("bybox"), CombineLevel("byoffset"), CombineLevel("bybox", short=True),
             SameMesh(1, 1), SameMesh(0, 0), SameMesh(1, 0), FieldIndices(["gamma", "alpha"], ["tau"]), FieldIndices(["beta"], ["tau", "sigma"]), FieldIndices(["alpha", "beta", "gamma"], ["sigma", "tau"])]
 
 
